@@ -325,9 +325,13 @@ class _PatchingASTWalker:
         for decorator in node.decorator_list:
             children.extend(("@", decorator))
         children.extend(["class", node.name])
-        if node.bases:
+        arguments = sorted(
+            list(node.bases) + list(node.keywords),
+            key=lambda argument: (argument.lineno, argument.col_offset),
+        )
+        if arguments:
             children.append("(")
-            children.extend(self._child_nodes(node.bases, ","))
+            children.extend(self._child_nodes(arguments, ","))
             children.append(")")
         children.append(":")
         children.extend(node.body)
